@@ -1,8 +1,8 @@
 """C05 — configuration of tools/check.py and text of the MANIFEST entry."""
 
 PROP = {
-    "targets": ["Props/C05.vo", "Corr/CorrCore.vo"],
-    "cone": ["BC/Verify.v", "BC/CompileProofs.v"],
+    "targets": ["Props/C05.vo", "Corr/CorrCore.vo", "Corr/CorrC05b.vo"],
+    "cone": ["BC/Verify.v", "BC/CompileProofs.v", "BC/AssembleProofs.v"],
     "harness": "c05",
     "mismatch_div": 16,
     "failure_bits": 10,
@@ -14,8 +14,8 @@ PROP = {
 }
 
 MANIFEST = {
-    "text": "Coq theorems: (1) the structural verifier (linear decode: known opcodes, operands in range and of the expected constant kind; jump check: every target on an instruction boundary in [0, len]) is sound — on verified code the program counter stays on boundaries for every run; (2) every program the model compiler emits passes the jump check (induction over all 22 node kinds, all nestings); (3) stack balance and absence of machine failures for compiled programs as instances of compile_correct (a successful run ends with exactly [result] and no scope; a failing run stops exactly where and why the stack-less reference semantics stops). Tie: the verified verifier is executed inside Coq on the serialised Bytecode/Constants of every program compiler.Compile produced in this run and the decoded code is compared with the model compiler; on the implementation VM.Stack()/Scope() are inspected after every run and machine-class failures are searched, including programs around the 64 KiB jump limit and the 2^16 constant limit.",
+    "text": "Coq theorems: (1) the structural verifier (linear decode: known opcodes, operands in range and of the expected constant kind; jump check: every target on an instruction boundary in [0, len]) is sound — on verified code the program counter stays on boundaries for every run; (2) every program the model compiler emits passes the jump check (induction over all 22 node kinds, all nestings); (3) stack balance and absence of machine failures for compiled programs as instances of compile_correct (a successful run ends with exactly [result] and no scope; a failing run stops exactly where and why the stack-less reference semantics stops). (4) BYTE LEVEL (BC/Assemble.v, a model of emit / makeConstant / placeholder / patchJump / calcBackwardJump / encode incl. the constant pool in makeConstant-call order with Go map-key de-duplication, the 65535-entry and 65535-offset limits): decode (assemble C) returns C for code of any length (C05_decode_assemble: up to Go-equal pushed constants; C05_decode_assemble_exact: exactly, under a decidable carve-out that only concerns -0.0 inside by-value struct constants - refuted without it), hence every byte program the model compiler emits passes the whole structural verifier (C05_bytes_wf / C05_compile_bytes_wf: operands in range and of the expected constant kind, jumps on boundaries), all bytes are in 0..255, and assembling fails ONLY for an unhashable constant, a jump beyond 65535 or a pool beyond 65535 entries (C05_assemble_fails_only_when_too_big, both directions). Tie: the verified verifier is executed inside Coq on the serialised Bytecode/Constants of every program compiler.Compile produced in this run and the decoded code is compared with the model compiler; the byte-level model compile_bytes is compared with Program.Bytecode / Constants / Locations of the same programs byte for byte, constant for constant (second evaluation of every case file); on the implementation VM.Stack()/Scope() are inspected after every run and machine-class failures are searched, including programs around the 64 KiB jump limit and the 2^16 constant limit.",
     "design_ref": "DESIGN.md §4 C05",
-    "note": "Trusted: Coq kernel; decode as model of the byte format; serialiser. No assemble model: the byte level is tied by decoding real bytes, not by an encode/decode inversion theorem.",
-    "technique": "Coq proof: verified bytecode verifier + compile well-formedness by induction + corollaries of the compiler-correctness simulation; verifier executed on the Go compiler's bytes",
+    "note": "Trusted: Coq kernel; decode as model of the byte format; serialiser. The byte level is tied both ways: decoding real bytes and comparing with the model compiler, and assembling the model compiler's code and comparing with the real bytes; decode . assemble = id is a theorem. The exactness theorems use two standard-library float facts (FloatAxioms.eqb_spec, FloatAxioms.SF2Prim_Prim2SF). Skipped by the byte comparison: the optimizer's pointer-shared MatchesNode (the serialised tree holds two copies).",
+    "technique": "Coq proof: verified bytecode verifier + compile well-formedness by induction + corollaries of the compiler-correctness simulation + decode/assemble inversion for the byte-level assembler model (induction over the code with the pool invariant); verifier executed on the Go compiler's bytes; assembler model executed against the Go compiler's bytes",
 }
